@@ -1,5 +1,13 @@
 """C12 — Python literals are promoted identically by converter, eager mode and builder."""
+import re
+
 MODULES = ["contracts.c12_autocast", "contracts.c01_operators"]
+
+
+def INCLUDE(name):
+    m = re.match(r"(C\d\d)\.", name)
+    return m is None or m.group(1) == "C12"
+
 
 CACHE_REPLAY = '''
 import sys, struct
